@@ -528,7 +528,9 @@ fn gen_case(rng: &mut Rng, id: usize, tier: &str) -> String {
     let wmass = kind == "wmass";
     let bg = gen_background(rng, wmass);
     let cap = if wmass { 6 } else { 8 };
-    let m = if kind == "large" { 9 + rng.below(8) as usize } else { gen_m(rng, cap) };
+    // quick tier: widths 9..12 (the bit-exact replay of a width-16 table alone takes ~10 s)
+    let wide_span = if tier == "thorough" { 8 } else { 4 };
+    let m = if kind == "large" { 9 + rng.below(wide_span) as usize } else { gen_m(rng, cap) };
     // `large`: too wide for the exact enumeration (structural checks and bit-exact replay only)
     let mkind = if kind == "large" { *rng.pick(&["rand", "quant", "counts"]) } else { kind };
     let rows5 = gen_matrix(rng, mkind, m, &bg);
